@@ -182,7 +182,7 @@ func candidates(t *tnode, vn *vnode, try func(cand) bool) {
 				return
 			}
 		}
-		if f.opt.hasTag && f.opt.tag >= 31 {
+		if f.opt.hasTag && f.opt.tag != 1 && (f.opt.tag >= 31 || univOpt[f.opt.s] != 0) {
 			var rest []string
 			for _, tok := range toks {
 				if strings.HasPrefix(tok, "tag:") {
@@ -372,13 +372,27 @@ func main() {
 			}
 			core[o] = true
 		}
-		var pairSpecs []int
+		// The universal-number tag options (univOpt) are paired, in both orders,
+		// with the untagged specs ("" and "optional") of every kind: quick tier
+		// context class x "" partners, thorough tier all classes x both partners.
+		var pairSpecs, univSpecs, partnerSpecs []int
 		for i, sp := range specs {
-			if !quick || core[sp.opt.s] {
+			cl, isUniv := univOpt[sp.opt.s]
+			switch {
+			case isUniv:
+				if !quick || cl == 2 {
+					univSpecs = append(univSpecs, i)
+				}
+			case !quick || core[sp.opt.s]:
 				pairSpecs = append(pairSpecs, i)
+			}
+			if sp.opt.s == "" || (sp.opt.s == "optional" && (!quick || sp.t.leaf.cls == kFlag)) {
+				partnerSpecs = append(partnerSpecs, i)
 			}
 		}
 		c.Set("two_field_specs", len(pairSpecs))
+		c.Set("two_field_universal_number_specs", len(univSpecs))
+		c.Set("two_field_partner_specs", len(partnerSpecs))
 		var jobs []job
 		for a := 0; a < nS; a++ {
 			jobs = append(jobs, job{shape: 1, a: a})
@@ -388,7 +402,15 @@ func main() {
 				jobs = append(jobs, job{shape: 2, a: a, b: b})
 			}
 		}
+		for _, a := range univSpecs {
+			for _, b := range partnerSpecs {
+				jobs = append(jobs, job{shape: 2, a: a, b: b}, job{shape: 2, a: b, b: a})
+			}
+		}
 		for a := 0; a < nS; a++ {
+			if cl, isUniv := univOpt[specs[a].opt.s]; isUniv && quick && cl != 2 {
+				continue // nested shapes: context class only in the quick tier
+			}
 			for o := range outerStruct {
 				jobs = append(jobs, job{shape: 4, a: a, o: o}, job{shape: 4, a: a, o: o, tail: true})
 			}
